@@ -80,7 +80,7 @@ class Harness:
 
 EVENTS = ["ac0-change", "ac0-repeat", "zone0-change", "zone0-repeat", "zone2-change", "all-zones-change", "timer-change", "timer-repeat",
           "errtext-change", "version-change", "version-repeat", "sub-twice", "unsub-twins", "raise-on", "raise-others", "oneshot-on",
-          "unsub-one-of-both"]
+          "unsub-one-of-both", "cmd-set-timer", "cmd-clear-timer", "cmd-ac0-mode"]
 
 
 def apply_event(h, ev, k):
@@ -144,6 +144,22 @@ def apply_event(h, ev, k):
         h.targets["B2"][1](h.fns["B2"])        # B2 leaves the AC-state set: still a general subscriber
         h.bmode["B1"] = "state"
         return []
+    if ev in ("cmd-set-timer", "cmd-clear-timer", "cmd-ac0-mode"):
+        # an API command: the console applies it and reports the new state; that report is a frame like any other
+        import datetime
+        import pyairtouch as A
+
+        def act():
+            if ev == "cmd-set-timer":
+                coro = h.ac0.set_quick_timer(A.AcTimerType.OFF_TIMER, datetime.time((7 + k) % 24, 15))
+            elif ev == "cmd-clear-timer":
+                coro = h.ac0.clear_quick_timer(A.AcTimerType.OFF_TIMER)
+            else:
+                cur = h.w.console.state["ac"][0]["mode"]
+                coro = h.ac0.set_mode(A.AcMode.HEAT if cur != "heat" else A.AcMode.COOL)
+            h.w.spawn(coro)
+            h.w.loop.settle()
+        return act
     if ev == "oneshot-on":
         # (un)subscribing from inside a callback is a placement of subscribe/unsubscribe like any other
         h.oneshot |= {s for s in ("A2", "G2", "Z2") if s in h.active}
@@ -198,8 +214,11 @@ def run_history(job):
             continue
         h.reset_counts()
         h.left_during_frame = set()
-        for fr in frames:
-            c10.push(w, fr)
+        if callable(frames):
+            frames()
+        else:
+            for fr in frames:
+                c10.push(w, fr)
         after = pubmodel.expected_view(gen, w.inst, w.console.state)
         label = f"at{gen}/{order} history {names[:k + 1]}"
         d = pubmodel.diff(after, pubmodel.observed_view(w.at))
